@@ -17,6 +17,8 @@ inductive Pattern where
   | publishOnly         -- s.currentSource = inner, read by a pre-registered callback   (EternalSource before the fix)
   | registerThenCheck   -- s.OnTerminating(inner.Shutdown); if s.IsTerminating() { inner.Shutdown() }
   | lockedInit          -- s.LockedInit(func(){ publish }) else inner.Shutdown(); return
+  | lockedInitLeak      -- s.LockedInit(func(){ publish }) else (only the outer source is shut down): the created
+                        -- inner source is neither run nor shut down   (MultiplexedSource before the fix)
 deriving DecidableEq, Repr
 
 /-- runner program counter -/
@@ -65,6 +67,9 @@ def step (p : Pattern) (s : St) : Tid → Option St
         -- LockedInit holds the shutter lock: either not yet terminating (publish succeeds) or already terminating
         if terminating s then some { s with r := .returned, innerDown := true }     -- err: inner.Shutdown(); return
         else some { s with r := .running, known := true }
+      | .lockedInitLeak =>
+        if terminating s then some { s with r := .returned }                        -- err: the inner source is dropped
+        else some { s with r := .running, known := true }
     | .check =>
       if terminating s then some { s with r := .running, innerDown := true } else some { s with r := .running }
     | .running => if s.innerDown then some { s with r := .returned } else none      -- inner.Run() returns once shut down
@@ -74,6 +79,10 @@ def step (p : Pattern) (s : St) : Tid → Option St
     source known, the inner source has been told to stop — so inner.Run(), hence the outer Run, returns. -/
 def Safe (s : St) : Bool :=
   !(s.k == .callbacksDone || s.k == .done) || !(s.r == .running) || s.innerDown
+
+/-- every inner source that was obtained is shut down by the time both threads are done: nothing is leaked -/
+def NoLeak (s : St) : Bool :=
+  !(s.k == .done && s.r == .returned) || s.innerDown
 
 /-- no deadlock short of completion: if Shutdown was called and Run has not returned, some thread can move -/
 def Live (p : Pattern) (s : St) : Bool :=
